@@ -80,7 +80,7 @@ bool sampled(sdk::Sampler &s, uint64_t prefix, uint64_t low = 0) {
   return s.ShouldSample(tr::SpanContext::GetInvalid(), make_id(prefix, low), "", tr::SpanKind::kInternal, kNoAttrs, kNoLinks).decision == Decision::RECORD_AND_SAMPLE;
 }
 
-void build_ratios() {
+void build_ratios(bool thorough) {
   const double INF = std::numeric_limits<double>::infinity(), DEN = std::numeric_limits<double>::denorm_min();
   std::vector<double> R;
   auto add = [&](double r) { R.push_back(r); };
@@ -92,7 +92,9 @@ void build_ratios() {
   for (double r : {std::ldexp(3.0, -65), std::ldexp(3.0, -64), std::ldexp(5.0, -64), std::ldexp(1.0, -60), std::ldexp(1.0, -56)}) add(r);
   for (int e : {-54, -53, -52}) add3(std::ldexp(1.0, e));
   for (double r : {std::ldexp(1.0, -48), std::ldexp(1.0, -40)}) add(r);
-  for (int e : {-33, -32, -31}) add3(std::ldexp(1.0, e));
+  for (int e : {-33, -32, -31, -16, -8}) add3(std::ldexp(1.0, e));
+  for (double j : {255.0, 16777216.0, 1073741824.0}) add3(j / 4294967295.0);
+  for (double r : {0.05, 0.7, 0.95}) add(r);
   for (double j : {1.0, 2.0, 3.0, 65536.0, 2147483647.0, 2147483648.0, 2147483649.0, 4294967293.0, 4294967294.0}) add3(j / 4294967295.0);
   for (double j : {3.0, 2147483649.0, 4294967295.0}) add3(j / 4294967296.0);
   for (double r : {1e-12, 1e-9, 1e-6, 1e-4, 0.001, 0.1, 0.2, 0.3, 1.0 / 3, 2.0 / 3, 0.9, 0.99, 0.999999, 1 - 1e-12}) add(r);
@@ -101,6 +103,15 @@ void build_ratios() {
   add3(1 - std::ldexp(1.0, -52));
   add(1 - std::ldexp(1.0, -53));
   for (double r : {1.0, std::nextafter(1.0, 2.0), 1 + 1e-9, 1.5, 2.0, 4294967295.0, 4294967296.0, 1.8446744073709552e19, 1e300, DBL_MAX, INF}) add(r);
+  if (thorough) {
+    // thorough tier: additionally both neighbours and second neighbours of every finite ratio
+    size_t n = R.size();
+    for (size_t i = 0; i < n; ++i) {
+      if (!std::isfinite(R[i])) continue;
+      double up = std::nextafter(R[i], INF), dn = std::nextafter(R[i], -INF);
+      add(up); add(dn); add(std::nextafter(up, INF)); add(std::nextafter(dn, -INF));
+    }
+  }
   std::sort(R.begin(), R.end(), [](double a, double b) { return a < b || (a == b && std::signbit(a) && !std::signbit(b)); });
   for (double r : R)
     if (g_ratios.empty() || bits_of(g_ratios.back()) != bits_of(r)) g_ratios.push_back(r);
@@ -187,7 +198,7 @@ void setup(vf::Options &o) {
   o.split_depth = 2;
   o.deadline_s = o.thorough ? 900 : 100;
   o.table_bits = 22;
-  build_ratios();
+  build_ratios(o.thorough);
   build_ids(o.thorough);
 }
 
@@ -198,6 +209,7 @@ void run_single(vf::Ctx &c) {
   int ri = c.pick("ratio", (int)g_ratios.size());
   double r = g_ratios[ri];
   c.stage("ratio.single");
+  c.counted("ratios");
   sdk::TraceIdRatioBasedSampler s(r), s2(r);
   const Variants &V = variants();
   const int NV = V.count();
@@ -263,6 +275,7 @@ void run_pairs(vf::Ctx &c) {
   int j = i + 1 + c.pick("r2", rest);
   double r1 = g_ratios[i], r2 = g_ratios[j];
   c.stage("ratio.pair");
+  c.counted("ratio_pairs");
   sdk::TraceIdRatioBasedSampler s1(r1), s2(r2);
   vf::H128 oh;
   uint64_t only2 = 0;
@@ -369,6 +382,7 @@ void run_parent(vf::Ctx &c) {
   int pcode = c.pick("parent", kParents);
   int di = c.pick("delegate", kDelegates);
   c.stage("parentbased");
+  c.counted("parentbased_configurations");
   const Variants &V = variants();
   std::string delegate_name;
   std::shared_ptr<Recording> rec = make_delegate(di, &delegate_name);
@@ -492,6 +506,7 @@ void run_tracer(vf::Ctx &c) {
   int pcode = c.pick("parent", kParents);
   double ratio = ri >= 0 ? g_ratios[ri] : 0.5;
   c.stage("tracer.setup");
+  c.counted("tracer_configurations");
   std::string sname;
   std::unique_ptr<sdk::Sampler> sampler = tracer_sampler(si, ratio, &sname);
   std::unique_ptr<sdk::Sampler> reference = tracer_sampler(si, ratio, &sname);  // same configuration, asked directly
@@ -530,8 +545,8 @@ void run_tracer(vf::Ctx &c) {
     };
     if (!(sc.trace_id() == want_id)) c.fail("C12:tracer:trace-id", where() + ": the span is not in the expected trace");
     if (sc.IsSampled() != want.IsSampled())
-      c.fail(valid && !want.IsSampled() ? "C12:tracer:sampled-flag-set-although-dropped" : "C12:tracer:sampled-flag-differs-from-decision",
-             where() + vf::sfmt(": the new span context has sampled=%d (flags %02x) but the sampler's decision for it is %s", (int)sc.IsSampled(), sc.trace_flags().flags(), dname(want.decision)));
+      c.report(valid && !want.IsSampled() ? "C12:tracer:sampled-flag-set-although-dropped" : "C12:tracer:sampled-flag-differs-from-decision",
+               where() + vf::sfmt(": the new span context has sampled=%d (flags %02x) but the sampler's decision for it is %s", (int)sc.IsSampled(), sc.trace_flags().flags(), dname(want.decision)));
     oh.add((uint64_t)sc.IsSampled());
   }
   c.step(evals);
